@@ -32,6 +32,10 @@ def draw(rng, kinds=("isa", "casc", "corpus", "mut", "isamut"), weights=None):
     if kind == "deep":
         prog = G.gen_deep_cascade(rng)
         return {"kind": kind, "files": {"main.asm": G.render(prog)}, "roots": ["main.asm"], "std": False, "tag": "deep", "prog": prog}
+    if kind == "chain":
+        from gen import chains
+        src, want, info = chains.gen_padding_chain(rng)
+        return {"kind": kind, "files": {"main.asm": src}, "roots": ["main.asm"], "std": False, "tag": "chain", "expected_hex": want}
     if kind == "macro":
         from gen import macros
         src, twin, info = macros.gen_pair(rng)
